@@ -683,9 +683,12 @@ class SoftwareSwitchBase (object):
         if no == in_port: continue
         real_send(port)
     elif out_port == OFPP_CONTROLLER:
-      buffer_id = self._buffer_packet(packet, in_port)
+      # Later actions of the same list modify the packet object in place,
+      # so buffer (and send) the packet as it is now.
+      data = packet.pack()
+      buffer_id = self._buffer_packet(data, in_port)
       # Should we honor OFPPC_NO_PACKET_IN here?
-      self.send_packet_in(in_port, buffer_id, packet, reason=OFPR_ACTION,
+      self.send_packet_in(in_port, buffer_id, data, reason=OFPR_ACTION,
                           data_length=max_len)
     elif out_port == OFPP_TABLE:
       # Do we disable send-to-controller when performing this?
